@@ -12,6 +12,7 @@ package main
 import (
 	"fmt"
 	"regexp/syntax"
+	"strconv"
 	"strings"
 
 	"verif/mc/chlex"
@@ -161,8 +162,16 @@ func around(st *stmt, j int) string {
 	for k := lo; k < hi; k++ {
 		b.WriteString(st.toks[k].Text)
 	}
-	return short(b.String(), 160)
+	return ascii(short(b.String(), 160))
 }
+
+// ascii makes a snippet printable (messages end up in logs that are grepped).
+func ascii(s string) string {
+	q := strconv.QuoteToASCII(s)
+	return q[1 : len(q)-1]
+}
+
+func tokStr(t chlex.Token) string { return fmt.Sprintf("%s(%s)@%d", t.Kind, ascii(short(t.Text, 60)), t.Pos) }
 
 // compare checks the statements rendered for value v against the statements rendered for the variant's two
 // harmless values (vx, vy: what the front end reads for them).  nil = the variant explains the statements completely.  carriers reports how many literals
@@ -183,7 +192,7 @@ func compare(got, bx, by []*stmt, va Variant, v, vx, vy string) (f *Finding, car
 		}
 		for j := range x.toks {
 			if !sameShape(x.toks[j], y.toks[j]) {
-				return &Finding{Reason: "benign_value_changes_structure", Detail: fmt.Sprintf("statement %d token %d: %s vs %s near «%s»", i, j, x.toks[j], y.toks[j], around(x, j)), Variant: va.Name}, 0
+				return &Finding{Reason: "benign_value_changes_structure", Detail: fmt.Sprintf("statement %d token %d: %s vs %s near «%s»", i, j, tokStr(x.toks[j]), tokStr(y.toks[j]), around(x, j)), Variant: va.Name}, 0
 			}
 		}
 		n := len(g.toks)
@@ -193,7 +202,7 @@ func compare(got, bx, by []*stmt, va Variant, v, vx, vy string) (f *Finding, car
 		for j := 0; j < n; j++ {
 			if !sameShape(g.toks[j], x.toks[j]) {
 				return &Finding{Reason: "structure_changed", Variant: va.Name, depth: depth + j,
-					Detail: fmt.Sprintf("statement %d token %d is %s, harmless value gives %s; near «%s»", i, j, g.toks[j], x.toks[j], around(g, j))}, 0
+					Detail: fmt.Sprintf("statement %d token %d is %s, harmless value gives %s; near «%s»", i, j, tokStr(g.toks[j]), tokStr(x.toks[j]), around(g, j))}, 0
 			}
 		}
 		if len(g.toks) != len(x.toks) {
@@ -209,12 +218,12 @@ func compare(got, bx, by []*stmt, va Variant, v, vx, vy string) (f *Finding, car
 				return &Finding{Reason: "benign_literal_undecodable", Detail: fmt.Sprintf("%v", x.bad[j]), Variant: va.Name, depth: depth}, 0
 			}
 			if g.bad[j] != nil {
-				return &Finding{Reason: "literal_undecodable", Detail: fmt.Sprintf("statement %d literal %s: %v", i, short(t.Text, 80), g.bad[j]), Variant: va.Name, depth: depth}, 0
+				return &Finding{Reason: "literal_undecodable", Detail: fmt.Sprintf("statement %d literal %s: %v", i, ascii(short(t.Text, 80)), ascii(g.bad[j].Error())), Variant: va.Name, depth: depth}, 0
 			}
 			if x.dec[j] == y.dec[j] {
 				if g.dec[j] != x.dec[j] {
 					return &Finding{Reason: "unrelated_literal_changed", Variant: va.Name, depth: depth, Observed: g.dec[j],
-						Detail: fmt.Sprintf("statement %d literal %s decodes to %q, harmless value gives %q", i, short(t.Text, 80), g.dec[j], x.dec[j])}, 0
+						Detail: fmt.Sprintf("statement %d literal %s decodes to %q, harmless value gives %q", i, ascii(short(t.Text, 80)), g.dec[j], x.dec[j])}, 0
 				}
 				continue
 			}
@@ -234,11 +243,11 @@ func compare(got, bx, by []*stmt, va Variant, v, vx, vy string) (f *Finding, car
 			}
 			if !recognised {
 				return &Finding{Reason: "benign_value_not_decoded", Variant: va.Name, depth: depth, Observed: x.dec[j],
-					Detail: fmt.Sprintf("statement %d literal %s decodes to %q for the harmless value %q", i, short(x.toks[j].Text, 80), x.dec[j], va.BX)}, carriers
+					Detail: fmt.Sprintf("statement %d literal %s decodes to %q for the harmless value %q", i, ascii(short(x.toks[j].Text, 80)), x.dec[j], va.BX)}, carriers
 			}
 			if !ok {
 				return &Finding{Reason: "literal_value_mismatch", Variant: va.Name, depth: depth + 1, Observed: g.dec[j],
-					Detail: fmt.Sprintf("statement %d literal %s decodes to %q", i, short(t.Text, 120), g.dec[j])}, carriers
+					Detail: fmt.Sprintf("statement %d literal %s decodes to %q", i, ascii(short(t.Text, 120)), g.dec[j])}, carriers
 			}
 		}
 	}
@@ -284,7 +293,7 @@ func dirty(sts []*stmt) *Finding {
 	for i, st := range sts {
 		for j, t := range st.toks {
 			if t.Kind == chlex.Comment || t.Kind == chlex.Error {
-				return &Finding{Reason: "sql_comment_or_lexical_error", Detail: fmt.Sprintf("statement %d token %d is %s near «%s»", i, j, t, around(st, j))}
+				return &Finding{Reason: "sql_comment_or_lexical_error", Detail: fmt.Sprintf("statement %d token %d is %s [%s] near «%s»", i, j, tokStr(t), t.Err, around(st, j))}
 			}
 		}
 	}
